@@ -99,31 +99,47 @@ def listWriteUnguarded (xs : List Val) (fld : List Nat) (v : Val) : R (List Val)
     let i := adjust xs.length i
     if i < xs.length then setIndex xs i v else .error (plain "Out of bounds access to list")
 
-/-- func_provider.go delFunc: `if i < 0 || i >= len(argList) { error } else { append(argList[:i], argList[i+1:]...) }`;
-    `b` is the backing array, `l` the length of the slice; result: the new contents of the backing array -/
-def del (b : List Val) (l : Nat) (i : Int) : R (List Val) :=
-  if i < 0 ∨ i ≥ l then .error (plain "Out of bounds access to list")
+/-- func_provider.go delFunc (current code, after 4ad50aa): `if i < 0 || i >= len(argList) { error } else
+    { newList := make(…, 0, len-1); newList = append(newList, argList[:i]...); append(newList, argList[i+1:]...) }`;
+    `xs` are the elements of the slice (both slice expressions are taken on the slice: bounds 0 ≤ lo ≤ hi ≤ len);
+    result: the elements of the NEW list -/
+def del (xs : List Val) (i : Int) : R (List Val) :=
+  if i < 0 ∨ i ≥ xs.length then .error (plain "Out of bounds access to list")
   else do
-    let left ← slice b 0 i
-    let right ← slice (b.take l) (i + 1) l
-    pure (left ++ right ++ b.drop (l - 1))
+    let left ← slice xs 0 i
+    let right ← slice xs (i + 1) xs.length
+    pure (left ++ right)
 
-/-- before ee44ab4: no bounds test -/
-def delUnguarded (b : List Val) (l : Nat) (i : Int) : R (List Val) := do
+/-- the current code without its bounds test -/
+def delUnguarded (xs : List Val) (i : Int) : R (List Val) := do
+  let left ← slice xs 0 i
+  let right ← slice xs (i + 1) xs.length
+  pure (left ++ right)
+
+/-- before ee44ab4 (and before 4ad50aa): `append(argList[:int(index)], argList[int(index+1):]...)` in place, no bounds
+    test; `b` is the backing array, `l` the length of the slice -/
+def delOldUnguarded (b : List Val) (l : Nat) (i : Int) : R (List Val) := do
   let left ← slice b 0 i
   let right ← slice (b.take l) (i + 1) l
   pure (left ++ right ++ b.drop (l - 1))
 
-/-- func_provider.go addFunc with an index, after `argList = append(argList, 0)` (`cur`: the l+1 elements):
-    `if i < 0 || i > l { error }; copy(cur[i+1:], cur[i:]); cur[i] = v` -/
-def insert (cur : List Val) (v : Val) (i : Int) : R (List Val) :=
-  if i < 0 ∨ i > (cur.length : Int) - 1 then .error (plain "Out of bounds access to list")
+/-- func_provider.go addFunc with an index (current code, after 4ad50aa): `if i < 0 || i > len(argList) { error }`,
+    then a NEW list from `argList[:i]`, the value, `argList[i:]` -/
+def insert (xs : List Val) (v : Val) (i : Int) : R (List Val) :=
+  if i < 0 ∨ i > xs.length then .error (plain "Out of bounds access to list")
   else do
-    let dst ← slice cur (i + 1) cur.length
-    let src ← slice cur i cur.length
-    setIndex (cur.take (i.toNat + 1) ++ src.take dst.length) i v
+    let left ← slice xs 0 i
+    let right ← slice xs i xs.length
+    pure (left ++ [v] ++ right)
 
-def insertUnguarded (cur : List Val) (v : Val) (i : Int) : R (List Val) := do
+def insertUnguarded (xs : List Val) (v : Val) (i : Int) : R (List Val) := do
+  let left ← slice xs 0 i
+  let right ← slice xs i xs.length
+  pure (left ++ [v] ++ right)
+
+/-- before ee44ab4: `argList = append(argList, 0); copy(argList[i+1:], argList[i:]); argList[i] = v` without a
+    bounds test (`cur`: the l+1 elements after the append) -/
+def insertOldUnguarded (cur : List Val) (v : Val) (i : Int) : R (List Val) := do
   let dst ← slice cur (i + 1) cur.length
   let src ← slice cur i cur.length
   setIndex (cur.take (i.toNat + 1) ++ src.take dst.length) i v
